@@ -198,6 +198,7 @@ def gen_universe(rng: random.Random, **opts: Any) -> dict:
         spec = "3.0"
     return {
         "spec": spec,
+        "ref_params": bool(opts.get("ref_params")),
         "collections": collections,
         "layout": opts.get("layout", "single"),
         "format": opts.get("format", "json"),
@@ -629,6 +630,23 @@ class Universe:
             "paths": paths,
             "components": components,
         }
+        if desc.get("ref_params"):
+            # some parameter definitions live under components/parameters and are referenced (chosen by content hash)
+            cparams = components.setdefault("parameters", {})
+            for pth, item in paths.items():
+                for mk, opdef in item.items():
+                    if mk == "parameters" or not isinstance(opdef, dict):
+                        continue
+                    plist = opdef.get("parameters") or []
+                    for idx, pdef in enumerate(plist):
+                        if not isinstance(pdef, dict) or "$ref" in pdef or "name" not in pdef:
+                            continue
+                        if content_hash("refparam", pth, mk, pdef["name"], pdef["in"]) % 5 < 2:
+                            cname = re.sub(r"[^A-Za-z0-9]", "_", f"{mk}_{pth}_{pdef['in']}_{pdef['name']}")
+                            cparams[cname] = pdef
+                            plist[idx] = {"$ref": f"#/components/parameters/{cname}"}
+            if not cparams:
+                del components["parameters"]
         mal = desc.get("malformed")
         if mal and mal["op"] in self.ops:
             refop = self.ops[mal["op"]]
@@ -760,14 +778,27 @@ class Universe:
         root = copy.deepcopy(doc)
         flags = desc.get("ref_paths") or []
         paths_file: dict[str, Any] = {}
+        par_prefix = "#/parameters/" if swagger else "#/components/parameters/"
         if swagger:
             common = {"definitions": copy.deepcopy(doc["definitions"])}
+            if doc.get("parameters"):
+                common["parameters"] = copy.deepcopy(doc["parameters"])
         else:
             common = {"components": {"schemas": copy.deepcopy(doc["components"]["schemas"])}}
+            if doc["components"].get("parameters"):
+                common["components"]["parameters"] = copy.deepcopy(doc["components"]["parameters"])
+
+        def reref(v: str) -> str:
+            if v.endswith(("/Missing", "/Nope")):
+                return v  # deliberately unresolvable
+            for pre in (ref_prefix, par_prefix):
+                if v.startswith(pre):
+                    return f"common.{ext}{v}"
+            return v
 
         def rewrite(node: Any) -> Any:
             if isinstance(node, dict):
-                return {k: (v.replace(ref_prefix, f"common.{ext}{ref_prefix}") if k == "$ref" and isinstance(v, str) else rewrite(v))
+                return {k: (reref(v) if k == "$ref" and isinstance(v, str) else rewrite(v))
                         for k, v in node.items()}
             if isinstance(node, list):
                 return [rewrite(x) for x in node]
@@ -899,6 +930,8 @@ def to_swagger2(doc: dict) -> dict:
         "paths": paths,
         "definitions": conv(doc["components"]["schemas"]),
     }
+    if doc["components"].get("parameters"):
+        out["parameters"] = {k: conv_param(v) for k, v in doc["components"]["parameters"].items()}
     schemes = doc["components"].get("securitySchemes")
     if schemes:
         sd = {}
